@@ -311,6 +311,12 @@ class Env:
         self.counter[0] += 1
         return f"{prefix}{self.counter[0]}"
 
+    def inputs_only(self):
+        c = self.child()
+        c.sig_vecs, c.sig_bits, c.var_vecs, c.var_bits, c.loc_vecs, c.loc_bits = [], [], [], [], [], []
+        c.readable_sigs = False
+        return c
+
     def child(self):
         import copy
         c = copy.copy(self)
@@ -580,11 +586,14 @@ def stmt(draw, env, depth, loop=False, in_sub=False):
             env.loc_bits.append(name)
         return {"k": "always", "bind": name, "e": e, "form": draw(st.sampled_from(["call", "call", "with"]))}
     if k == "await":
-        return {"k": "await", "c": draw(cond_expr(env, 1))}
+        # mostly wait for conditions over inputs, so that the drawn stimulus can satisfy them
+        cenv = env.inputs_only() if draw(st.integers(0, 3)) else env
+        return {"k": "await", "c": draw(cond_expr(cenv, 1))}
     if k == "await_true":
         return {"k": "await", "c": draw(st.sampled_from(["true"] * 7 + ["false"]))}
     if k == "while":
-        c = draw(st.one_of(st.just("true"), cond_expr(env, 1), cond_expr(env, 1)))
+        cenv = env.inputs_only() if draw(st.integers(0, 2)) else env
+        c = draw(st.one_of(st.just("true"), cond_expr(cenv, 1), cond_expr(cenv, 1)))
         body = draw(block(env, depth - 1, loop=True, in_sub=in_sub))
         return {"k": "while", "c": c, "body": body}
     if k == "awaitsub":
